@@ -574,6 +574,7 @@ int main(int argc, char **argv) {
         }
         tasks.push_back({find_cfg(cfgs, n), per, field});
       }
+  Watchdog watchdog(R, A, "C16:cartesian");
   bool cut = false;
 #pragma omp parallel
   {
@@ -589,6 +590,7 @@ int main(int argc, char **argv) {
 #pragma omp critical
     ST.merge(st);
   }
+  watchdog.stop();
   if (cut || R.out_of_time())
     R.hit_deadline("ray lattice incomplete");
   R.evaluations = ST.positions + ST.ngb + ST.rays;
